@@ -15,3 +15,4 @@ pub mod statecheck;
 pub mod structs;
 pub mod txcheck;
 pub mod fuzzing;
+pub mod golden;
